@@ -217,7 +217,36 @@ def stepOp (d : DState) (l : Line) : DState × List Verdict :=
 def stepRestart (d : DState) (l : Line) : DState × List Verdict :=
   match getStrList l.obs "dlvb", getStrList l.obs "dlva", getStrList l.obs "alters", getStr l.obs "integ" with
   | some dlvb, some dlva, some alters, some integ =>
-    let comps := l.obs.filter fun kv => kv.1.startsWith "c:"
+    -- a data file was removed / restored since the previous restart: availability and readability of the
+    -- sectors in it are then SUPPOSED to change; the absolute rule below takes over for those components
+    let fschg := (getStr l.obs "fschg") == some "1"
+    let comps := l.obs.filter fun kv => kv.1.startsWith "c:" && !(fschg && (kv.1 == "c:volumes" || kv.1 == "c:sectors"))
+    -- the model's rule at THIS restart (`volumes_available_at_every_restart`, `write_iff_file_and_room`):
+    -- entries `id:file:stored:listed:byid:status:ro:used:total`
+    let vols := (getStrList l.obs "vols").getD []
+    let parsed : List (Restart.Vol × String) := vols.filterMap fun e =>
+      match splitColon e with
+      | [id, file, stored, listed, byid, status, ro, used, total] =>
+        some ({ id := id.toNat?.getD 0, fileOk := file == "1", available := stored == "1",
+                room := ro == "0" && used.toNat?.getD 0 < total.toNat?.getD 0 },
+              s!"{id}:file={file},stored={stored},listed={listed},byid={byid},status={status}")
+      | _ => none
+    let model := Restart.restartVols (parsed.map (·.1))       -- what a restart must leave: available := fileOk
+    let vVol : List Verdict := (vols.zip (parsed.zip model)).foldl (fun acc (e, ((_, txt), want)) =>
+      match splitColon e with
+      | [_, _, stored, listed, byid, status, _, _, _] =>
+        let w := if want.available then "1" else "0"
+        let statusOk := (status == "ready") == want.available
+        if stored == w && listed == w && byid == w && statusOk then acc
+        else acc ++ [.monitor "c18/volume_available_iff_file_opens" txt]
+      | _ => acc ++ [.badline s!"vol entry {e}"]) []
+    let vWr : List Verdict :=
+      match getStr l.obs "wr" with
+      | some wr =>
+        let want := Restart.canWrite model
+        if (wr == "ok") == want then [] else
+          [.monitor "c18/write_iff_volume_available" s!"write={wr},model_can_write={want},vols={showStrList vols}"]
+      | none => []
     let vC := comps.foldl (fun acc kv =>
       if kv.2 == "1" then acc else acc ++ [.monitor s!"c18/restart_same/{(kv.1.drop 2).toString}" s!"mode={(getStr l.args "mode").getD "?"}"]) []
     let vD : List Verdict := if dlvb == dlva then [] else
@@ -231,7 +260,7 @@ def stepRestart (d : DState) (l : Line) : DState × List Verdict :=
     let vStale : List Verdict :=
       if stale then [.mismatch "ctor_fact/webhooks.NewManager" "does_not_load_selected" "hooks_served_after_restart"] else []
     let d := { d with restarts := d.restarts + 1, ctorStale := d.ctorStale + (if stale then 1 else 0) }
-    let vs := vC ++ vD ++ vA ++ vI ++ vStale
+    let vs := vC ++ vD ++ vA ++ vI ++ vStale ++ vVol ++ vWr
     (d, vs)
   | _, _, _, _ =>
     match getStr l.obs "bad" with
